@@ -215,9 +215,13 @@ func init() {
 			if i%4 == 1 {
 				o.Faults = &sim.RandomFaults{Pct: 10, Kinds: []sim.FaultKind{sim.F500Before, sim.F409Before}, R: rand.New(rand.NewSource(o.Seed ^ 0xfb)), Until: 300}
 			}
-			return simCase{Opt: o, Prof: sim.Profile{MinJobConfigs: 1, MaxJobConfigs: 3, MinJobs: 3, MaxJobs: 10, OwnedBias: 95, Policies: allPolicies,
+			pols := allPolicies
+			if i%2 == 0 {
+				pols = []execution.ConcurrencyPolicy{execution.ConcurrencyPolicyEnqueue}
+			}
+			return simCase{Opt: o, Prof: sim.Profile{MinJobConfigs: 1, MaxJobConfigs: 3, MinJobs: 3, MaxJobs: 10, OwnedBias: 95, Policies: pols,
 				MaxConcurrency: 2, Parallel: 10, MaxAttempts: 2, KillPct: 10, DeletePct: 15, StartAfterPct: 35, Spread: 25, Burst: true, TTL: []int64{5, 30, 120},
-				LateJobConfigs: 25, ForceRemovePct: 12}}
+				LateJobConfigs: 25, ForceRemovePct: 30}}
 		},
 		NonTrivial: func(w *sim.World) bool { return w.Mon.Evals["C06"] > 0 },
 	})
